@@ -92,7 +92,7 @@ Proof.
     as (je' & E2 & (ER' & Hbuf') & (D2 & F2)).
   (* Gen *)
   destruct (proj1 (sgen_print_all o Hcn Hnb) s lv fuel jst j sc' n' (j_indent jst) (j_buf jst) (j_auto jst) (j_scope jst) (j_n jst) ltac:(lia) (gi_nonempty _ _ _ G)
-              Hlv Hwf (shape_refl jst)) as (jst' & E3 & O3 & I3 & B3 & A3 & S3 & N3). { rewrite Hmode. exact Eg. }
+              Hlv Hwf (shape_refl jst)) as (jst' & E3 & O3 & (I3 & B3 & A3 & S3 & N3) & _). { rewrite Hmode. exact Eg. }
   destruct (sgen_scope _ _ _ _ _ _ _ _ Eg (gi_nonempty _ _ _ G)) as [Htl _].
   assert (ER2 : env_rel (j_scope jst') (c_ij cf) (sc_lookup (ctx st')) je').
   { rewrite S3. eapply env_rel_ext; [|exact ER']. intro k. symmetry. apply A1. }
